@@ -33,7 +33,12 @@ RULE = ("shapes x: gen.convex_solid (ConvexPolyhedron, ConvexSpheropolyhedron, P
         "setters); on half of the cases the exports (to_hoomd, gsd_shape_spec, inertia_tensor, repr) are called on the "
         "object before the queries; every public query by reflection; fixed corpus: repaired scale/position defects, "
         "axis-aligned shapes against rotated and almost-axis-aligned copies, and one case per absolute tolerance left in "
-        "the Python (isclose(q^2,0), isclose(z,0), coplanarity tolerance); distinct = distinct (class, parameters); "
+        "the Python (isclose(q^2,0), isclose(z,0), coplanarity tolerance); COORDINATE TIES: general Polyhedra in 'nice' "
+        "coordinates (tabulated Platonic / Archimedean / Catalan / Johnson solids as stored, hulls of integer points, voxel "
+        "solids) with query points that share two coordinates exactly with a vertex or an edge midpoint - 2..4 circumradii "
+        "away along an axis (certainly outside) and along the axis-parallel lines through the shape - compared on x (ties), "
+        "on a generically placed copy g(x) (no ties) and with an exact membership oracle (facet planes of scipy's hull / "
+        "voxel cells); distinct = distinct (class, parameters); "
         "non-trivial = all")
 ASSUMPTIONS = [
     "tolerance 1e-9 * natural scale ((size + |offset|)^k, maximum over x and g(x)); 1e-6 relative for the "
@@ -1643,6 +1648,139 @@ def corpus(ctx):
     return out
 
 
+# ===================================================================== coordinate ties (Polyhedron.is_inside)
+
+def _convex_truth(V):
+    """exact-membership oracle of a convex solid: (inside, outside) masks with a margin of 1e-6 sizes, from the facet
+    planes of scipy's hull of V (independent of the library)"""
+    from scipy.spatial import ConvexHull
+    h = ConvexHull(V)
+    size = gen.diameter(V)
+
+    def truth(P):
+        d = (P @ h.equations[:, :3].T + h.equations[:, 3]).max(axis=1)
+        return d < -1e-6 * size, d > 1e-6 * size
+    return truth
+
+
+def _voxel_truth(cells, spacing):
+    """exact-membership oracle of a voxel solid: the eight points p +- eps(1,1,1) (never on a lattice plane) are
+    classified by their cell; all eight filled -> interior, none -> exterior, otherwise boundary (no verdict)"""
+    filled = set(tuple(int(x) for x in c) for c in cells)
+    sp = np.asarray(spacing, dtype=float)
+
+    def truth(P):
+        cnt = np.zeros(len(P), dtype=int)
+        for sg in itertools.product([-1.0, 1.0], repeat=3):
+            Q = P / sp + 1e-4 * np.array(sg)
+            idx = np.floor(Q).astype(int)
+            cnt += np.array([tuple(i) in filled for i in idx], dtype=int)
+        return cnt == 8, cnt == 0
+    return truth
+
+
+def tie_shapes(ctx):
+    """general Polyhedra given in 'nice' coordinates: tabulated solids as the library stores them, hulls of
+    integer points, voxel solids.  Yields (kind, vertices, faces, truth)."""
+    import coxeter
+    from coxeter.families import ArchimedeanFamily, CatalanFamily, JohnsonFamily, PlatonicFamily
+    rng = ctx.rng
+    picks = [(PlatonicFamily, "Dodecahedron"), (PlatonicFamily, "Icosahedron")]
+    for fam, k in ((ArchimedeanFamily, 3 if ctx.tier == "quick" else 13), (CatalanFamily, 3 if ctx.tier == "quick" else 13), (JohnsonFamily, 6 if ctx.tier == "quick" else 30)):
+        names = sorted(fam.data.keys())
+        for i in rng.choice(len(names), size=k, replace=False):
+            picks.append((fam, names[int(i)]))
+    for fam, name in picks:
+        cp = fam.get_shape(name)
+        V = np.array(cp.vertices, dtype=float)
+        yield "tabulated:" + name, V, [[int(i) for i in f] for f in cp.faces], _convex_truth(V)
+    for _ in range(6 if ctx.tier == "quick" else 40):
+        while True:
+            pts = np.unique(rng.integers(-4, 5, size=(int(rng.integers(7, 16)), 3)), axis=0).astype(float)
+            try:
+                cp = coxeter.shapes.ConvexPolyhedron(pts)
+                break
+            except Exception:  # noqa: BLE001  (flat / too few points)
+                continue
+        V = np.array(cp.vertices, dtype=float)
+        yield "integer-hull", V, [[int(i) for i in f] for f in cp.faces], _convex_truth(V)
+    for _ in range(4 if ctx.tier == "quick" else 25):
+        m = gen.c05_voxel_solid(rng)
+        yield m["kind"], np.asarray(m["vertices"], dtype=float), [list(map(int, f)) for f in m["faces"]], \
+            _voxel_truth(m["cells"], m["spacing"])
+
+
+def tie_points(rng, V, F):
+    """query points that share TWO coordinates exactly with a vertex (or with an edge midpoint): straight above /
+    below / beside it — far outside (2..4 circumradii) and along the axis-parallel lines through the shape"""
+    c = V.mean(axis=0)
+    R = float(np.linalg.norm(V - c, axis=1).max())
+    vi = rng.permutation(len(V))[:24]
+    far = [V[i] + sg * t * R * np.eye(3)[k] for i in vi for k in range(3) for sg in (1.0, -1.0)
+           for t in (float(rng.uniform(2, 4)),)]
+    edges = sorted({(min(a, b), max(a, b)) for f in F for a, b in zip(f, f[1:] + f[:1])})
+    mids = [0.5 * (V[a] + V[b]) for a, b in (edges[i] for i in rng.permutation(len(edges))[:16])]
+    anchors = [V[i] for i in vi[:16]] + mids
+    through = []
+    for a in anchors:
+        for k in range(3):
+            for z in c[k] + R * np.array([-0.9, -0.55, -0.2, 0.1, 0.45, 0.8]):
+                q = np.array(a, dtype=float)
+                q[k] = z
+                through.append(q)
+    return np.array(far), np.array(through), c, R
+
+
+def eval_ties(ctx):
+    """Polyhedron.is_inside at points with exact coordinate ties (the sign tie-breaks of the winding code are consulted
+    only there), on x and on a generically rotated copy (no ties), both against an exact membership oracle."""
+    import coxeter
+    with warnings.catch_warnings():
+        warnings.simplefilter("ignore")
+        for kind, V, F, truth in tie_shapes(ctx):
+            rng = ctx.rng
+            g = {"kind": "rotation", "s": 1.0, "R": gen.random_rotation(rng), "t": np.zeros(3), "alpha": None, "relabel": None}
+            if rng.random() < 0.5:
+                g = dict(g, kind="composite", s=float(10 ** rng.uniform(-3, 3)))
+                g["t"] = rng.normal(size=3) * float(rng.uniform(0, 10)) * gen.diameter(V) * g["s"]
+            case = {"cls": "Polyhedron", "vertices": V.tolist(), "faces": F, "kind": "ties:" + kind}
+            record = {"case": case, "g": g_json(g), "ties": True}
+            ctx.case({"case": case, "gs": [g_json(g)], "ties": True})
+            ctx.count("ties:" + kind.split(":")[0])
+            try:
+                px = coxeter.shapes.Polyhedron(V, [np.array(f) for f in F])
+                pg = coxeter.shapes.Polyhedron(gp(g, V), [np.array(f) for f in F])
+            except Exception as e:  # noqa: BLE001
+                ctx.fail("Polyhedron.__init__:raises", "constructor raised on a tabulated / lattice solid", record, repr(e))
+                continue
+            far, through, c, R = tie_points(rng, V, F)
+            P = np.vstack([far, through])
+            ins, out = truth(P)
+            assert out[:len(far)].all() or kind.startswith("voxel")     # beyond the circumsphere
+            ix = np.asarray(px.is_inside(P), dtype=bool)
+            ig = np.asarray(pg.is_inside(gp(g, P)), dtype=bool)
+            known = ins | out
+            ctx.skipped_near_boundary += int((~known).sum())
+            ctx.count("ties:points", int(known.sum()))
+            ctx.count("ties:inside", int(ins.sum()))
+            bad_cov = np.where(known & (ix != ig))[0]
+            bad_x = np.where(known & (ix != ins))[0]
+            bad_g = np.where(known & (ig != ins))[0]
+            if len(bad_cov):
+                i = int(bad_cov[0])
+                ctx.fail("Polyhedron.is_inside:covariance:%s" % ("rotation" if g["kind"] == "rotation" else "composite"),
+                         "is_inside under %s: a point sharing two coordinates exactly with a vertex / edge midpoint is "
+                         "classified differently for x (coordinate ties) and for the generically placed copy g(x): "
+                         "point %r exact membership %r, is_inside(x)=%r, is_inside(g x)=%r (%d of %d points differ)"
+                         % (g["kind"], P[i].tolist(), bool(ins[i]), bool(ix[i]), bool(ig[i]), len(bad_cov), int(known.sum())),
+                         record, {"point": P[i].tolist(), "circumradius": R, "centre": c.tolist()})
+            elif len(bad_x) or len(bad_g):
+                i = int((list(bad_x) + list(bad_g))[0])
+                ctx.fail("Polyhedron.is_inside:exact-membership:coordinate-ties",
+                         "is_inside disagrees with the exact membership on x and on g(x) alike: point %r membership %r"
+                         % (P[i].tolist(), bool(ins[i])), record, {"point": P[i].tolist()})
+
+
 def eval_window_case(ctx, case, g):
     """form factor at |q| size = 0.05: on x the wave vector is outside the absolute window, on 1000 x inside"""
     cls = case["cls"]
@@ -1737,10 +1875,46 @@ def run(ctx):
         gs = choose_gs(ctx.rng, case, ctx)
         ctx.case({"case": case, "gs": [g_json(g) for g in gs]})
         eval_case(ctx, case, gs)
+    eval_ties(ctx)
+
+
+def replay_ties(ctx, rec):
+    """a recorded tie case: same shape and g, the tie points redrawn from the case's own vertices"""
+    import coxeter
+    case, g = rec["case"], g_from_json(rec["g"] if "g" in rec else rec["gs"][0])
+    V, F = np.array(case["vertices"], dtype=float), case["faces"]
+    ctx.case({"case": case, "gs": [g_json(g)], "ties": True})
+    try:
+        truth = _convex_truth(V)
+        hullv = len(__import__("scipy.spatial").spatial.ConvexHull(V).vertices)
+    except Exception:  # noqa: BLE001
+        hullv = -1
+    with warnings.catch_warnings():
+        warnings.simplefilter("ignore")
+        px = coxeter.shapes.Polyhedron(V, [np.array(f) for f in F])
+        pg = coxeter.shapes.Polyhedron(gp(g, V), [np.array(f) for f in F])
+        rng = np.random.default_rng(0)
+        far, through, c, R = tie_points(rng, V, F)
+        P = far if hullv != len(V) else np.vstack([far, through])      # non-convex (voxel): far points only
+        ix = np.asarray(px.is_inside(P), dtype=bool)
+        ig = np.asarray(pg.is_inside(gp(g, P)), dtype=bool)
+    if hullv == len(V):
+        ins, out = truth(P)
+        known = ins | out
+    else:
+        ins, known = np.zeros(len(P), dtype=bool), np.ones(len(P), dtype=bool)
+    bad = np.where(known & ((ix != ig) | (ix != ins)))[0]
+    if len(bad):
+        i = int(bad[0])
+        ctx.fail("Polyhedron.is_inside:covariance:%s" % ("rotation" if g["kind"] == "rotation" else "composite"),
+                 "is_inside at a point with coordinate ties: point %r membership %r is_inside(x)=%r is_inside(g x)=%r"
+                 % (P[i].tolist(), bool(ins[i]), bool(ix[i]), bool(ig[i])), rec, None)
 
 
 def replay(ctx, payload):
     rec = payload.get("case", payload)
+    if rec.get("ties"):
+        return replay_ties(ctx, rec)
     if "gs" in rec:
         case, gs = rec["case"], [g_from_json(j) for j in rec["gs"]]
     else:
